@@ -551,3 +551,16 @@ def long_run(rng, n=None):
     tail = rng.choice(("nmea", "ubx", "rtcm"))
     out.append((tiny[tail][0], tiny[tail][1], "tail frame"))
     return out, style
+
+
+def block_length(rng):
+    """
+    A payload length for which some plausible total (payload, payload + 2 checksum bytes, whole
+    frame) is an exact multiple of a block size a reader might read in (1 KiB ... 32 KiB), or one off.
+    """
+    while True:
+        block = rng.choice((1024, 4096, 8192, 16384, 32768))
+        mult = rng.randrange(1, 65536 // block + 1)
+        n = block * mult - rng.choice((0, 2, 6, 8)) + rng.choice((0, 0, 0, -1, 1))
+        if 0 < n <= 65535:
+            return n
